@@ -121,6 +121,34 @@ func main() {
 			kv.WriteResult(*out, res)
 		}
 		fmt.Fprintf(stdout, "sig: cases=%d nontrivial=%d monitor=%v\n", res.Evaluations, res.DistinctNontrivial, res.MonitorHitCount)
+	case "nocrash-child":
+		fs := flag.NewFlagSet("nocrash-child", flag.ExitOnError)
+		seed := fs.Uint64("seed", 1, "seed")
+		fuzz := fs.Int("fuzz", 50, "fuzzed inputs")
+		from := fs.Int("from", 0, "first input")
+		fs.Parse(os.Args[2:])
+		stdout := apph.SilenceAppLogs()
+		apph.NoCrashChild(*seed, *fuzz, *from, stdout)
+		apph.Cleanup()
+	case "nocrash":
+		fs := flag.NewFlagSet("nocrash", flag.ExitOnError)
+		_ = fs.String("driver", "", "path to olpdriver")
+		seed := fs.Uint64("seed", 1, "seed")
+		seeds := fs.Int("seeds", 4, "number of child seeds")
+		fuzz := fs.Int("fuzz", 60, "fuzzed inputs per seed")
+		par := fs.Int("parallel", 8, "children in parallel")
+		out := fs.String("out", "", "result json")
+		fs.Parse(os.Args[2:])
+		self, _ := os.Executable()
+		res, err := apph.RunNoCrash(self, *seed, *seeds, *fuzz, *par)
+		if err != nil {
+			fmt.Println("olh nocrash:", err)
+			os.Exit(2)
+		}
+		if *out != "" {
+			kv.WriteResult(*out, res)
+		}
+		fmt.Printf("nocrash: cases=%d distinct=%d monitor=%v\n", res.Evaluations, res.DistinctNontrivial, res.MonitorHitCount)
 	case "shell":
 		fs := flag.NewFlagSet("shell", flag.ExitOnError)
 		driver := fs.String("driver", "", "path to olpdriver")
